@@ -90,6 +90,14 @@ CLAIMED = {
    note=TB + "Atomicity granularity is one write burst (the hook's), not one byte; power loss/fsync is out of scope by the property's own text; working-tree files are outside the property. The re-run theorem is proved for the create/append/rename shape only; fsck/prune re-runs are checked by enumeration.",
    technique="Lean 4 proof (prefix-closed invariant over operation lists + re-run theorem) + exhaustive crash-point enumeration with SIGKILL on the real binary",
    ref="§5 C09, Appendix O"),
+ "C20": dict(
+   text="Lean theorems over the hook/attribute installer model: a hook file that is not (after undent+trim, in full, within the read window) a current or historical template and is not blank is byte-identical after "
+        "install/update/uninstall without --force and the conflict is reported; files longer than the window are always foreign; only generated or blank files are ever overwritten/removed; install twice = once; uninstall "
+        "after install restores absent and user-owned hooks; filter.lfs.* values that are neither empty nor upgradeable are never replaced without --force; all templates regenerated from lfs/hook.go and decided to be "
+        "fixpoints of the normaliser, recognised, and `git lfs` shell scripts. Scenario runs of the real binary over planted hook/filter states and command sequences are judged by a plant-aware oracle and compared with the model.",
+   note=TB + "Scope resolution (--local/--worktree/--system/--file) is delegated to `git config`; blank hook files count as nothing to destroy; uninstall's documented removal of the whole filter.lfs section is not asserted either way (I2).",
+   technique="Lean 4 proof (case analysis of the matcher + decide over the regenerated template tables) + scenario correspondence against the real binary",
+   ref="§5 C20"),
 }
 PENDING_REASON = "check not built yet in this session (build in progress, see DESIGN.md §10); not claimed until its theorems and correspondence run"
 ALL = ["C%02d" % i for i in range(1, 21)]
